@@ -189,14 +189,19 @@ func Explode(dstDir string, inputShard string) error {
 		}
 	}
 
-	// best effort rename shards.
+	// best effort rename shards: try all of them, but do not report success if
+	// a repository did not make it back into its own shard.
+	var renameErr error
 	for tmpFn, dstFn := range exploded {
 		if err := os.Rename(tmpFn, dstFn); err != nil {
 			log.Printf("explode: rename failed: %s", err)
+			if renameErr == nil {
+				renameErr = fmt.Errorf("zoekt.Explode: %w", err)
+			}
 		}
 	}
 
-	return nil
+	return renameErr
 }
 
 type shardBuilderFunc func(ib *ShardBuilder)
